@@ -102,3 +102,24 @@ FWD_EXCEPTIONS = {
     "widget.overlay.Overlay.render:self.bottom_w.render(real_size)": "the bottom widget of an Overlay never has the focus (the top widget has it) - documented behaviour",
     "widget.scrollable.ScrollBar.mouse_event:ow.get_scrollpos(ow_size)": "reached only under hasattr(ow, 'set_scrollpos'), i.e. for a Scrollable, whose get_scrollpos() ignores both arguments",
 }
+
+# ACCUM: running positions that must advance in every continuing iteration.  "<function>:<update statement>" ->
+# (properties that include the instance, why the position matters).
+ACCUM_TABLE = {
+    "canvas.shards_trim_sides:col = next_col": (("C02", "C01"), "the column of every later cview of the shard is off, so side trims / overlays clip the wrong part"),
+    "canvas.CanvasJoin:col += composite_canvas.cols()": (("C02",), "children joined to the right are positioned (coords, shortcuts, children offsets) from this column"),
+    "canvas.CanvasCombine:row += canv.rows()": (("C02",), "children stacked below are positioned (coords, shortcuts, children offsets) from this row"),
+    "canvas.shards_trim_rows:done_rows += num_rows": (("C02",), "later shards are kept / trimmed by the rows already passed"),
+    "widget.columns.Columns.column_widths:shared += width_ + self.dividechars": (("C19", "C01"), "every column passed over was charged its width plus a divider in the first pass; a column left behind without the refund keeps the budget negative and the focus column is dropped although it fits"),
+    "widget.columns.Columns.column_widths:shared -= static_w + self.dividechars": (("C19",), "the space left for weighted columns is what remains after every listed column was charged"),
+    "widget.pile.Pile.move_cursor_to_coords:wrow += r": (("C09",), "the row handed to the child is relative to the rows of all items above it"),
+    "widget.pile.Pile.mouse_event:wrow += height": (("C09",), "the row handed to the child is relative to the rows of all items above it"),
+    "widget.listbox.ListBox.mouse_event:wrow += w_rows": (("C09",), "the row handed to the child is relative to the rows of all visible items above it"),
+    "text_layout.calc_coords:y += 1": (("C10", "C03"), "the cursor row is the number of layout lines passed"),
+    "text_layout.calc_coords:x += s.sc": (("C10", "C03"), "the cursor column is the width of the segments passed on the line"),
+    "text_layout.calc_line_pos:current_sc += s.sc": (("C10",), "the preferred column is matched against the columns passed on the line"),
+    "text_layout.line_width:sc += s[0]": (("C03",), "the width of a line is the sum over all its segments"),
+    "util.rle_get_at:x += run": (("C02", "C17"), "the attribute at a position is found by the run lengths passed"),
+    "util.rle_subseg:x += run": (("C02", "C17"), "the attribute runs of a text slice are cut by the run lengths passed"),
+    "display._raw_display_base.Screen.draw_screen:y += 1": (("C04",), "rows that are skipped because they are unchanged still count: the cursor addressing of every later row uses y"),
+}
